@@ -605,6 +605,43 @@ func (e *Enc) signalResult(v ssa.Value) bool {
 			v = x.Tuple
 		case *ssa.ChangeType:
 			v = x.X
+		case *ssa.UnOp:
+			// a variable filled in by errors.As whose boolean result is thrown away: nil when the
+			// error chain holds no such error
+			if x.Op != token.MUL {
+				return false
+			}
+			al, ok := x.X.(*ssa.Alloc)
+			if !ok || al.Referrers() == nil {
+				return false
+			}
+			for _, r := range *al.Referrers() {
+				mi, ok := r.(*ssa.MakeInterface)
+				if !ok || mi.Referrers() == nil {
+					continue
+				}
+				for _, u := range *mi.Referrers() {
+					call, ok := u.(*ssa.Call)
+					if !ok {
+						continue
+					}
+					if f := call.Call.StaticCallee(); f == nil || f.Pkg == nil || f.Pkg.Pkg.Path() != "errors" || f.Name() != "As" {
+						continue
+					}
+					used := false
+					if cr := call.Referrers(); cr != nil {
+						for _, w := range *cr {
+							if _, dbg := w.(*ssa.DebugRef); !dbg {
+								used = true
+							}
+						}
+					}
+					if !used {
+						return true
+					}
+				}
+			}
+			return false
 		case *ssa.Call:
 			callee := x.Call.StaticCallee()
 			if callee == nil || callee.Pkg == nil || e.w.inRepoPkg(callee.Pkg.Pkg.Path()) {
